@@ -942,7 +942,7 @@ func runFault(r *lib.Run, caseIdx int, sc script, inject []string) {
 
 func straceScripts(r *lib.Run) []script {
 	var out []script
-	n := r.N(6, 40)
+	n := r.N(6, 30)
 	for i := 0; i < n; i++ {
 		rng := lib.Rng("C14/strace-script", uint64(i))
 		switch i % 6 {
@@ -1016,7 +1016,8 @@ func straceLayer(r *lib.Run, t *testing.T) {
 		}
 		return targets[a].refPos < targets[b].refPos
 	})
-	maxKills := r.N(140, 4000)
+	r.Count("kill_targets_before_cap", len(targets))
+	maxKills := r.N(140, 2500)
 	if len(targets) > maxKills {
 		// keep a seeded subset, spread over scripts
 		rng := lib.Rng("C14/kill-subset", 0)
